@@ -81,6 +81,14 @@ def replace_locks(objects=()):
             if isinstance(v, _LOCK_TYPES):
                 setattr(mod, k, CoopRLock())
                 n += 1
+            elif isinstance(v, (tuple, list)) and v and all(isinstance(x, _LOCK_TYPES) for x in v):
+                # a fixed pool of locks (lock striping)
+                setattr(mod, k, type(v)(CoopRLock() for _ in v))
+                n += 1
+            elif isinstance(v, dict) and not isinstance(v, collections.defaultdict) and v and all(isinstance(x, _LOCK_TYPES) for x in v.values()):
+                for kk in list(v):
+                    v[kk] = CoopRLock()
+                n += 1
             elif isinstance(v, collections.defaultdict) and v.default_factory is not None:
                 try:
                     probe = v.default_factory()
